@@ -1869,6 +1869,64 @@ theorem closure_sh_pkh_secp256k1_built (vk : Bytes → Bool) (flags : Nat) (cx :
     (by simp only [List.length_append, List.length_singleton]; omega)
     (by simp only [List.length_append, List.length_singleton]; omega) hne
 
+/-! ### BIP322 on what the library builds -/
+
+/-- **T3 (BIP322 simple, p2wpkh address), on what the library builds**: key octets `builtKey q`, signature
+    DER(sign low-s) ‖ ht; no encoding hypothesis. -/
+theorem bip322_simple_p2wpkh_secp256k1_built (flags : Nat) (msg h : Bytes) (ht : Nat)
+    (hht : ht < 256) (hd : 1 ≤ ht % 128 ∧ ht % 128 ≤ 3) {q k r s kid : Int} (hq : 0 < q ∧ q < EC.secp256k1.n)
+    (hl : h.length = 20) (hW : has flags FLAG_WITNESS = true) (hnz : castToBool h = true)
+    (hh : ripemd160 (sha256 (builtKey q)) = h)
+    (hk : 0 < k ∧ k < EC.secp256k1.n)
+    (hsign : Ecdsa.signRecoverable (EC.ops EC.secp256k1)
+      (Rfc6979.challenge EC.secp256k1.n
+        (engineEcdsaDigest secpCrypto (Bip322.signCtx secpCrypto msg (p2wpkh h)) (p2pkh h) .WITNESS_V0 ht)) q k true =
+        .ok (r, s, kid))
+    (der : Bytes) (hder : Der.serialize r s = .ok der) :
+    Bip322.verifySimple secpCrypto flags msg (p2wpkh h) [] [der ++ [UInt8.ofNat ht], builtKey q] = .ok () := by
+  obtain ⟨henc, h8, h72, _⟩ := built_sig_passes_encoding flags ht hht hd hk hsign der hder
+  exact bip322_simple_p2wpkh_secp256k1 flags msg h _ ht hht hl hW hnz hh (secpCompressedKey_compressed _)
+    (secpParsePub_built q hq) hk hsign der hder (by simp only [Gen.VarInt.MAX_SIZE]; omega) henc
+    (by simp only [List.length_append, List.length_singleton]; omega)
+
+/-- **T3 (BIP322, p2sh-p2wpkh address), on what the library builds**. -/
+theorem bip322_p2sh_p2wpkh_secp256k1_built (flags : Nat) (msg h hr : Bytes) (ht : Nat)
+    (hht : ht < 256) (hd : 1 ≤ ht % 128 ∧ ht % 128 ≤ 3) {q k r s kid : Int} (hq : 0 < q ∧ q < EC.secp256k1.n)
+    (hl : h.length = 20) (hrl : hr.length = 20)
+    (hP : has flags FLAG_P2SH = true) (hW : has flags FLAG_WITNESS = true) (hnz : castToBool h = true)
+    (hhr : ripemd160 (sha256 (p2wpkh h)) = hr) (hh : ripemd160 (sha256 (builtKey q)) = h)
+    (hk : 0 < k ∧ k < EC.secp256k1.n)
+    (hsign : Ecdsa.signRecoverable (EC.ops EC.secp256k1)
+      (Rfc6979.challenge EC.secp256k1.n
+        (engineEcdsaDigest secpCrypto (Bip322.signCtx secpCrypto msg (p2sh hr)) (p2pkh h) .WITNESS_V0 ht)) q k true =
+        .ok (r, s, kid))
+    (der : Bytes) (hder : Der.serialize r s = .ok der) :
+    Bip322.verifySimple secpCrypto flags msg (p2sh hr) (pushData (p2wpkh h)) [der ++ [UInt8.ofNat ht], builtKey q] =
+      .ok () := by
+  obtain ⟨henc, h8, h72, _⟩ := built_sig_passes_encoding flags ht hht hd hk hsign der hder
+  exact bip322_p2sh_p2wpkh_secp256k1 flags msg h hr _ ht hht hl hrl hP hW hnz hhr hh (secpCompressedKey_compressed _)
+    (secpParsePub_built q hq) hk hsign der hder (by simp only [Gen.VarInt.MAX_SIZE]; omega) henc
+    (by simp only [List.length_append, List.length_singleton]; omega)
+
+/-- **T3 (BIP322, p2pkh address), on what the library builds**; `hne` (element ≠ the 20-byte hash) stays. -/
+theorem bip322_p2pkh_secp256k1_built (flags : Nat) (msg h : Bytes) (ht : Nat)
+    (hht : ht < 256) (hd : 1 ≤ ht % 128 ∧ ht % 128 ≤ 3) {q k r s kid : Int} (hq : 0 < q ∧ q < EC.secp256k1.n)
+    (hl : h.length = 20) (hh : ripemd160 (sha256 (builtKey q)) = h)
+    (hk : 0 < k ∧ k < EC.secp256k1.n)
+    (hsign : Ecdsa.signRecoverable (EC.ops EC.secp256k1)
+      (Rfc6979.challenge EC.secp256k1.n
+        (engineEcdsaDigest secpCrypto (Bip322.signCtx secpCrypto msg (p2pkh h)) (p2pkh h) .BASE ht)) q k true =
+        .ok (r, s, kid))
+    (der : Bytes) (hder : Der.serialize r s = .ok der)
+    (hne : der ++ [UInt8.ofNat ht] ≠ h) :
+    Bip322.verifySimple secpCrypto flags msg (p2pkh h) (pushData (der ++ [UInt8.ofNat ht]) ++ pushData (builtKey q)) [] =
+      .ok () := by
+  obtain ⟨henc, h8, h72, _⟩ := built_sig_passes_encoding flags ht hht hd hk hsign der hder
+  exact bip322_p2pkh_secp256k1 flags msg h _ ht hht hl hh (secpCompressedKey_compressed _)
+    (secpParsePub_built q hq) hk hsign der hder (by simp only [Gen.VarInt.MAX_SIZE]; omega) henc
+    (by simp only [List.length_append, List.length_singleton]; omega)
+    (by simp only [List.length_append, List.length_singleton]; omega) hne
+
 /-- non-vacuity of the `_built` forms, by the KERNEL: the concrete p2wpkh spend of `Proofs/C10/Example.lean` (its key
     octets ARE `secpCompressedKey (q·G)`: `Ex.hbuilt`) satisfies every hypothesis of `closure_p2wpkh_secp256k1_built`
     under all twenty-one flags -/
